@@ -13,6 +13,17 @@ References
 
 import sys
 
+
+def _comment_text(text):
+    """Text fit for one comment line: line breaks become spaces
+
+    A header value or a variable label may contain any text. A line
+    break inside it would start a line which is neither a comment nor
+    a clause, and the output would not be a DIMACS file anymore.
+    """
+    return " ".join(str(text).splitlines())
+
+
 def to_dimacs_file(formula, fileorname=None,
                    export_header=True,
                    export_varnames=False):
@@ -51,14 +62,16 @@ def to_dimacs_file(formula, fileorname=None,
     if export_header:
         # remove non ascii text
         for field in formula.header:
-            tmp = "c {}: {}\n".format(field, formula.header[field])
+            tmp = "c {}: {}\n".format(_comment_text(field),
+                                      _comment_text(formula.header[field]))
             tmp = tmp.encode('ascii', errors='replace').decode('ascii')
             output.write(tmp)
         output.write("c\n")
 
     if export_varnames:
         for varid, label in enumerate(formula.all_variable_labels(), start=1):
-            output.write("c varname {0} {1}\n".format(varid, label))
+            output.write("c varname {0} {1}\n".format(varid,
+                                                      _comment_text(label)))
         output.write("c\n")
 
     # Formula specification
